@@ -49,6 +49,7 @@ pub fn model_space(tier: Tier) -> Vec<Model> {
             v.extend(gen::m10(0));
             v.extend(gen::m11(0));
             v.extend(gen::m12(0));
+            v.extend(decision_profile_models());
         }
         Tier::Thorough => {
             v.extend(gen::m1(1));
@@ -63,6 +64,7 @@ pub fn model_space(tier: Tier) -> Vec<Model> {
             v.extend(gen::m10(1));
             v.extend(gen::m11(1));
             v.extend(gen::m12(1));
+            v.extend(decision_profile_models());
         }
     }
     v
@@ -670,4 +672,19 @@ fn run_c03(model: &Model, sols: &[Vec<i32>], cfg: &Cfg, br: &BrancherSpec, cx: &
         IterEnd::Panic(e) => cx.violation(format!("{}:iterate-resumed", panic_sig(&e)), format!("panic in the resumed iteration: {e}")),
         other => cx.violation("resumed-iteration-does-not-finish", format!("the resumed iteration ended with {other:?}")),
     }
+}
+
+/// The decision-profile task sets of C08 (two profiles separated by a short gap, the first one
+/// created by a decision, side constraints leaving only the solutions right in front of the second
+/// profile) under pointwise explanations with sequence generation for every propagation method,
+/// and under the default options.
+fn decision_profile_models() -> Vec<Model> {
+    let mut v = vec![];
+    for ts in crate::props::c08::decision_profile_sets() {
+        v.push(ts.model(CumOpts::default_opts()));
+        for method in 0..6u8 {
+            v.push(ts.model(CumOpts { holes: false, explanation: 2, sequence: true, method, incremental_backtracking: false }));
+        }
+    }
+    v
 }
